@@ -600,6 +600,9 @@ def run(ctx, config='rel-all'):
     # ---- R8 comparison / hashing / formatting / indexing / borrow impls hand the whole contents to the slice impl; R9 compositions
     forwarding.check(ctx, config, 'R8', 'vec::Vec', 20)
     glue.check_vec(ctx, config, 'R9')
+    # ---- R12 helpers, accessors, iterator glue
+    from . import helpers
+    helpers.check_vec(ctx, config, 'R12')
     # ---- R10 the exported vec! macro (no MIR inside the crate: analysed on its expansion in a client probe)
     if config == 'rel-all':
         from . import macros
